@@ -26,7 +26,11 @@ def fit(xs, ys, ws, q, fit_intercept, positive, weighted, dup, max_iter=100, wdt
     else:
         X, y = numpy.array(xs, dtype=float).reshape((-1, 1)), numpy.array(ys, dtype=float)
         sw = numpy.array(ws, dtype=wdtype) if weighted else None
-    m = QuantileLinearRegression(quantile=q, max_iter=max_iter, fit_intercept=fit_intercept, positive=positive, delta=delta)
+    if len(xs) % 2:
+        m = QuantileLinearRegression(quantile=q, max_iter=max_iter, fit_intercept=fit_intercept, positive=positive, delta=delta)
+    else:       # configured after construction, as clone + set_params of a grid search does
+        m = QuantileLinearRegression(quantile=0.5 if q != 0.5 else 0.25)
+        m.set_params(quantile=q, max_iter=max_iter, fit_intercept=fit_intercept, positive=positive, delta=delta)
     with warnings.catch_warnings():
         warnings.simplefilter("ignore")
         m.fit(X, y, sample_weight=sw)
@@ -51,6 +55,8 @@ def one(tid, rng):
         delta = 0.01
     # integer weights are given as floats or as an integer array; with positive=True (only the sign is claimed) any
     # number of IRLS passes, the first one included, must respect the constraint
+    if positive and rng.random() < 0.5:
+        xs = [x - 11 for x in xs]           # a feature whose values are all negative (log-probabilities, ...)
     wdtype = rng.choice([float, numpy.int64, numpy.int32])
     max_iter = rng.choice([1, 2, 100]) if positive else 100
     m, sc, (X, y, sw) = fit(xs, ys, ws, qa / qb, fit_intercept, positive, mode == "weighted", mode == "dup", max_iter, wdtype, delta)
